@@ -122,7 +122,7 @@ PROPS = {
             'assumptions': [
                 'scope: the compile-time half of C04 only -- which call instruction the compiler emits.  Decided: an application compiled with flag `tail` ends in TCALL iff the flag is set (compile_runtime_procedure_application); both branches of `if` inherit the flag of the whole form (compile_if); the dispatchers compile_expression / compile_procedure_application hand the flag through to `if` forms and applications; compile() hands it to the macro-expanded expression',
                 'compile_lambda: the last body expression of a procedure gets the flag set -- if it is an application, the code object stored in the heap behind the pointer left in the enclosing bytecode ends in TCALL; Ret (loop invariant over the remaining body; Heap::put assumed to box the code object: heap_deref / lambda_cell).  Its two `.iter().inspect(trace).map(|sym| self.heap.put_cell(sym)).collect::<Vec<VCell>>()` chains are closures capturing &mut self, which Verus rejects: they are rewritten mechanically into the equivalent push loop (rewrite map_collect).  compile_set (format! of a &&Cell) and compile_quasiquote (nesting-depth counters) carry an assumed frame contract only; compile_define / compile_symbol_expression / compile_define_syntax / compile_quote are verified for the frame (and panic-freedom, given that Heap::put_cell answers a pointer); compile_runnable (top level) is not under contract',
-                'eval (builtin/procedure.rs): the thunk built for the datum is compiled with the flag set -- if the macro-expanded datum is an application, the code object eval returns (to be entered by the re-dispatched call) ends in TCALL; Ret; pop_argc / Vm::pop / Heap::get_as_cell / Stack::push carry assumed contracts over an opaque stack (stack_top / stack_popped); every compile function is also proved to leave the machine registers alone (eval moves ip back afterwards)',
+                'eval (builtin/procedure.rs): the thunk built for the datum is compiled with the flag set -- if the macro-expanded datum is an application, the code object eval returns (to be entered by the re-dispatched call) ends in TCALL; Ret; pop_argc / Vm::pop / Heap::get_as_cell / Stack::push carry assumed contracts over an opaque stack (popped_value / stack_popped: what Vm::pop answers and what is left, as uninterpreted functions of heap and stack); every compile function is also proved to leave the machine registers alone (eval moves ip back afterwards)',
                 'run-time half, group runone: the TCALL arm of the real run_one is proved to rebuild the frame in place (frame_replaced): after a tail call to a closure or lambda the stack pointer is (first argument slot of the old frame) + argc + 2 -- independent of the previous stack depth --, the saved %ep / %ip / %bp of the caller are the ones of the replaced frame, the new arguments sit in order above the frame base, nothing below the frame changes, the heap is untouched; both the equal-argc in-place copy and the different-argc rebuild satisfy the same postcondition',
                 'the run_one contract is scoped by precondition to states whose next opcode is CALL, TCALL, ENTER, RET or VARARG (every other arm is then unreachable) and whose frame layout satisfies tcall_frame (bp + 5 + argc <= sp, frame_argc <= bp, stack shorter than 2^61 slots): run_count, the caller, is verified in group run against an assumed run_one and does not establish this precondition -- it is an assumption about the states compiled code reaches; read_opcode (moves %ip only), Heap::get, VCell::as_bp (Kani-checked) carry assumed contracts; Stack::get / get_mut / get_offset / get_offset_mut / get_sp / get_sp_mut / push are verified (unit stack); usize is 64 bits (global size_of usize == 8)',
                 'the same run_one contract covers CALL (pushes exactly %ep and the return address), ENTER (pushes %bp, new %bp addresses the last argument), RET (drops the whole frame, restores %ep/%ip/%bp from it, writes nothing) and VARARG (optional arguments replaced by one slot: req + 1 arguments whatever was passed; needs `a variadic code object has at least one formal`); VCell::as_argc / as_bp / as_ep / as_ip: assumed on the Verus side, checked on the real code by the complete Kani harness vcell_accessors; Vm::lambda assumed to answer the code object determined by heap and %ip.0', 'apply (builtin/procedure.rs, group cont): hands control back to the dispatching CALL / TCALL (%ip.1 - 1) with the procedure as its result and exactly the spread arguments on the stack -- the k leading arguments moved down over the procedure slot, then pointers to the cars of the m list cells (walked through the heap), then ArgumentCount(k + m); nothing below is touched, no slot is left behind; requires the argument count on the stack to be smaller than the stack pointer (true after CALL / TCALL); Vm::pop assumed', 'call/cc handing control back is decided under C05 (same group)', 'the stack never has more than isize::MAX / 2 slots (axiom_stack_len: Vec allocation limit, VCell larger than one byte) -- used for i64 index arithmetic and for `can always double`', 'NOT decided at run time: the heap objects VARARG / ENTER build; the cond / case / and / or / when / unless / let-family forms are prelude.scm macros over `if` and `lambda`, their expansion is not under contract',
